@@ -221,7 +221,7 @@ def handle (line : String) : String :=
        let n := norm X v
        let toml := match s with | some s => tomlAccepts s | none => false
        let js := (s.map jsonLayer).bind de
-       s!"ser={match s with | some s => svalStr s | none => "err"} rt={optVal rt} norm={valStr (canonVal n)} sz={b01 (serializable v)} toml={b01 toml} fin={b01 (allFinite v)} sk={b01 (strKeys v)} json={optVal js} idem={b01 (decide (norm X n = n))} depth={depth v} ndepth={depth n}")
+       s!"ser={match s with | some s => svalStr s | none => "err"} rt={optVal rt} norm={valStr (canonVal n)} sz={b01 (serializable v)} toml={b01 toml} fin={b01 (allFinite v)} sk={b01 (strKeys v)} json={optVal js} idem={b01 (decide (norm X n = n))} depth={depth v} ndepth={depth n} tomlrt={optVal (rt.map tomlOrd)}")
   | [.atom "de", s] =>
     (match parseSVal s with
      | none => "bad-request"
